@@ -49,6 +49,11 @@ MUTATIONS = {
     "nonneg-all-symbols": ("src/mxlpy/meta/sympy_tools.py", "return [sympy.Symbol(arg) for arg in args]", "return [sympy.Symbol(arg, nonnegative=True) for arg in args]"),
     "sorted-state-names": (SIM, '                        "time",\n                        self.model.get_variable_names(),\n                        _par_names,',
                            '                        "time",\n                        sorted(self.model.get_variable_names()),\n                        _par_names,'),
+    # coefficients of unit-conversion size (seeded change C12-9 and neighbours; closing pass)
+    "rational-limited-coefficients": ("apply", "/verif/seeded/C12-9/patch.diff"),
+    "six-digit-coefficients": (SYM, "sympy.Float(stoich_value) * rxns[rxn]", "sympy.Float(stoich_value, 6) * rxns[rxn]"),
+    "drop-negligible-terms": (SYM, "        for rxn, stoich_value in stoich.items():\n            eqs[cpd] = (",
+                              "        for rxn, stoich_value in stoich.items():\n            if abs(stoich_value) < 1e-9:\n                continue\n            eqs[cpd] = ("),
     "dyn-overwrite": (SYM, "eqs[cpd] = eqs.get(cpd, sympy.Float(0.0)) + coef * rxns[rxn]", "eqs[cpd] = coef * rxns[rxn]"),
 }
 
